@@ -63,6 +63,7 @@ pub fn normalise(s: &str) -> String {
 thread_local! {
     static LAST_PANIC: RefCell<Option<PanicInfo>> = RefCell::new(None);
     static WANT_BT: Cell<bool> = Cell::new(false);
+    static CATCH_DEPTH: Cell<u32> = Cell::new(0);
 }
 
 static HOOK: Once = Once::new();
@@ -81,6 +82,10 @@ pub fn install_panic_hook() {
                 .location()
                 .map(|l| format!("{}:{}", l.file(), l.line()))
                 .unwrap_or_default();
+            if CATCH_DEPTH.with(|d| d.get()) == 0 {
+                // not inside exec::catch: a harness panic. Make it visible.
+                eprintln!("HARNESS PANIC: {msg} at {loc}");
+            }
             let mut func = String::new();
             if WANT_BT.with(|w| w.get()) {
                 let bt = std::backtrace::Backtrace::force_capture().to_string();
@@ -124,7 +129,10 @@ pub fn want_backtrace(b: bool) {
 /// Runs `f`, converting a panic into `Err(PanicInfo)`.
 pub fn catch<R>(f: impl FnOnce() -> R) -> Result<R, PanicInfo> {
     LAST_PANIC.with(|p| *p.borrow_mut() = None);
-    match catch_unwind(AssertUnwindSafe(f)) {
+    CATCH_DEPTH.with(|d| d.set(d.get() + 1));
+    let r = catch_unwind(AssertUnwindSafe(f));
+    CATCH_DEPTH.with(|d| d.set(d.get() - 1));
+    match r {
         Ok(r) => Ok(r),
         Err(_) => Err(LAST_PANIC.with(|p| p.borrow_mut().take()).unwrap_or_default()),
     }
